@@ -130,6 +130,8 @@ where
                 // For sufficiently small `s`, `x` will always be infinite,
                 // which is rejected, resulting in an infinite loop. We avoid
                 // this by always returning infinity instead.
+                #[cfg(rand_distr_verif)]
+                crate::verif_hooks::probe(66);
                 return x;
             }
 
@@ -137,6 +139,8 @@ where
 
             let v = rng.sample(StandardUniform);
             if v * x * (t - F::one()) * self.b <= t * (self.b - F::one()) {
+                #[cfg(rand_distr_verif)]
+                crate::verif_hooks::probe(67);
                 return x;
             }
         }
